@@ -24,6 +24,7 @@ Ds(mn) == IF Full \/ mn = "bra" THEN AllD ELSE EdgeD
 \* window start / middle / 3, 2, 1 bytes before the window end, per mapping
 Places(rom) == IF rom = "low" THEN {32768 + 200, 49152, 65533 - 2, 65533, 65534} ELSE {12582912 + 200, 12615680, 12648445 - 2, 12648445, 12648446}
 RelocRom(rom) == IF rom = "low" THEN 163840 + 300 ELSE 12845056 + 300      \* 0x028000 / 0xC40000 (+300)
+RomStart(rom) == IF rom = "low" THEN 32768 ELSE 12582912
 Ram == 8265728                                                              \* 0x7E2000
 
 \* the branch sits at run address A (after the moves); target = A + 2 + d
@@ -41,6 +42,8 @@ Program(rom, mn, d, place, reloc, form) ==
         pre == CASE reloc = "none"   -> << Star(place - lead) >>
                  [] reloc = "rom"    -> << Star(place), At(RelocRom(rom) - lead) >>
                  [] reloc = "ram"    -> << Star(place), At(Ram - lead) >>
+                 \* relocated to run at the very first ROM byte (file offset 0) from somewhere else
+                 [] reloc = "rom0"   -> << Star(place), At(RomStart(rom)) >>
                  [] reloc = "ram2rom" -> << Star(place), Lab("romtarget"), [k |-> "data", d |-> "db", es |-> <<N(96)>>], At(Ram) >>
         body == IF reloc = "ram2rom" THEN << Br(mn, Plus(I("romtarget"), d)) >> ELSE Body(mn, d, form)
     IN [rom |-> rom, defines |-> <<>>, body |-> pre \o body]
@@ -49,11 +52,12 @@ Forms(d) == IF d >= -1 \/ d < -1 THEN (IF d = -1 THEN {"expr"} ELSE {"expr", "la
 
 VARIABLE c
 Init == c = <<>>
-Next == c = <<>> /\ \E rom \in {"low", "high"}, mn \in Mns, reloc \in {"none", "rom", "ram", "ram2rom"} :
+Next == c = <<>> /\ \E rom \in {"low", "high"}, mn \in Mns, reloc \in {"none", "rom", "ram", "ram2rom", "rom0"} :
           \E d \in Ds(mn), place \in Places(rom), form \in {"expr", "label"} :
             /\ (d % NShards) = Shard
             /\ form \in Forms(d)
             /\ (reloc = "ram2rom" => (form = "expr" /\ d \in {0 - 2, 0, 5}))
+            /\ (reloc = "rom0" => (form = "expr" \/ d >= 0))     \* nothing may be placed below the first ROM byte
             \* the label form needs room before the place for the padding
             /\ c' = [rom |-> rom, mn |-> mn, d |-> d, place |-> place, reloc |-> reloc, form |-> form]
 Emit == c = <<>> \/ PrintT(ToJson([case |-> c, prog |-> Program(c.rom, c.mn, c.d, c.place, c.reloc, c.form)]))
